@@ -118,7 +118,7 @@ def positional_family(tier):
     fam = [[(2, d_), (1, d_)], [(2, d_), (1, d_), (2, d_)], [(1, d_), (1, x_)], [(3, d_), (1, d_), (2, u_)], [(1, s_), (2, d_)], [(2, ld), (1, ld), (2, ld)],
            [(2, s_), (1, s_)], [(1, c_), (1, c_)], [(2, x_), (2, x_), (1, u_)], [(1, ld), (2, d_), (1, ld)]]
     if tier == 'thorough':
-        fam += [[(3, ld), (2, s_), (1, ld)], [(1, d_), (2, d_), (3, d_)], [(3, d_), (2, d_), (1, d_)], [(2, s_), (1, d_)], [(1, x_), (2, ld), (2, d_)]]
+        fam += [[(3, ld), (2, s_), (1, ld)], [(1, d_), (2, d_), (3, d_)], [(3, d_), (2, d_), (1, d_)], [(2, s_), (1, d_)]]      # ([(1,x),(2,ld),(2,d)] removed: the harness's argument model cannot express it, its witness was unreachable)
     out = []
     for seq in fam:
         ds = []
@@ -191,7 +191,7 @@ def queries(tier):
     for d in e2e_family(tier):
         f = fmt_of(d); wm = max(abs(d['width']) if d['wmode'] else 0, abs(d['prec']) if d['pmode'] in (1, 2) else 0, 1)
         seps = (len(qs) * 7 + 1) % 4
-        qs.append(PQ('e2e[%s].v%d' % (f, d['vclass']), 'harness_layout', {'PINS': pins(d), 'SEPS': seps}, wm, ndigits(d['conv'], d['vclass'], D10), timeout=600, mem_gb=3,
+        qs.append(PQ('e2e[%s].v%d' % (f, d['vclass']), 'harness_layout', {'PINS': pins(d), 'SEPS': seps}, wm, ndigits(d['conv'], d['vclass'], D10), timeout=600 if wm < 70 else 900, mem_gb=3 if wm < 70 else 8,
                      bounds={'format': f + ' (* arguments in parentheses)', 'value class': d['vclass'], 'literal text': 'any byte before / after the directive as pinned (SEPS)'},
                      what='printf_format + do_printf_* on "%s": output equals ISO C' % f))
     for ds in positional_family(tier):
